@@ -192,9 +192,21 @@ class LifeCycle:
                         for n in [x for x in g.nodes if x.stmt is st and x.part == 'post']:
                             self.recorders.append(Recorder(n, 'send', pair[0], pair[1], st, call=c))
                             self.state_sends.append((n, a.elts[1]))
+                    elif isinstance(a, ast.Tuple) and len(a.elts) == 2 and isinstance(a.elts[0], ast.Name) and self._pair_var(a.elts[0].id):
+                        # the outcome is collected in a local and reported by one send (the style of the remote backend)
+                        self.outcome_var = a.elts[0].id
+                        for n in [x for x in g.nodes if x.stmt is st and x.part == 'post']:
+                            self.recorders.append(Recorder(n, 'send', None, a.elts[0], st, call=c, var=self.outcome_var))
+                            self.state_sends.append((n, a.elts[1]))
                     else:
                         for n in [x for x in g.nodes if x.stmt is st and x.part == 'post']:
                             self.sync_nodes.append(n)
+            if self.outcome_var:
+                for st in walk_local(self.main.node):
+                    if isinstance(st, ast.Assign) and len(st.targets) == 1 and is_name(st.targets[0], self.outcome_var):
+                        p = _is_pair(st.value)
+                        for n in completion(st):
+                            self.recorders.append(Recorder(n, 'varstore', p[0] if p else None, p[1] if p else st.value, st, var=self.outcome_var))
         else:
             # remote backend: outcome variable = Name sent with send_msg(self._socket, <Name>) ; sync = runtime info on the start-up pipe
             sends = []
@@ -250,6 +262,11 @@ class LifeCycle:
         # do_work call nodes
         self.work_nodes = [n for n in g.nodes if n.kind == 'stmt' and n.part in ('eval',) and any(last_attr(c) == 'do_work' and receiver(c) == 'self' for c in n.calls())]
         self.cleanup_nodes = [n for n in g.nodes if n.kind == 'stmt' and n.part in ('eval',) and any(last_attr(c) == '_cleanup' and receiver(c) == 'self' for c in n.calls())]
+
+    def _pair_var(self, name):
+        """every assignment to local `name` in the child-main stores a (bool, x) pair (and there is one)"""
+        vals = [st.value for st in walk_local(self.main.node) if isinstance(st, ast.Assign) and len(st.targets) == 1 and is_name(st.targets[0], name)]
+        return bool(vals) and all(_is_pair(v) for v in vals)
 
     def _recorders_via_helpers(self, kind):
         """a recorder extracted into a helper method: `self._report(False, e)` whose body stores / sends the pair"""
